@@ -22,13 +22,29 @@ RULE = ("tuples of sub-expressions (structured generator, with and without funct
         "compound whose parts all evaluate without error and whose result is not null.")
 
 
+def top_level_flatten(toks):
+    """a `[]` outside every bracket: it binds below a projection and would END the right-hand side (the text after it is then applied to
+    the whole projection result, not per element) — such a tail is not a right-hand side, so the per-element law does not speak about it"""
+    depth = 0
+    for t in toks:
+        if t == "[]" and depth == 0:
+            return True
+        if t in ("[", "[?", "(", "{"):
+            depth += 1
+        elif t in ("]", ")", "}"):
+            depth -= 1
+    return False
+
+
 def dot_headed(rng, eg):
-    toks = [G.tok_ident(rng)]
-    n = 0
-    while rng.random() < 0.5 and n < 3:
-        toks += eg.postfix(2)
-        n += 1
-    return toks
+    while True:
+        toks = [G.tok_ident(rng)]
+        n = 0
+        while rng.random() < 0.5 and n < 3:
+            toks += eg.postfix(2)
+            n += 1
+        if not top_level_flatten(toks):
+            return toks
 
 
 def ident_or_quoted(k):
@@ -68,7 +84,7 @@ def gen(ctx):
     rng = ctx.rng
     eg = G.ExprGen(rng, funcs=True, maxdepth=2)
     egc = G.ExprGen(rng, funcs=False, maxdepth=2)
-    n = 2500 if ctx.tier == "quick" else 60000
+    n = 2500 if ctx.tier == "quick" else 300000
     out = []
     for _ in range(n):
         g = eg if rng.random() < 0.4 else egc
@@ -119,8 +135,10 @@ OKV = re.compile(r"^ok (.*)$")
 
 
 def val(o):
+    """the value of an Ok result; an expression reference inside a value carries the offsets of the text it was compiled from, which
+    differ between the compound and the separately compiled part — positions are not part of the value (C12 owns them)"""
     m = OKV.match(o or "")
-    return m.group(1) if m else None
+    return re.sub(r" @\d+", "", m.group(1)) if m else None
 
 
 def impl_eval(ctx, pairs):
